@@ -199,6 +199,19 @@ def run(chk, prog, tier):
                 fld = strip(a[1], casts=True)
                 if fld.get("kind") == "MemberExpr":
                     field_helper.setdefault(fld["name"], []).append(callee_name(c))
+    # a composite flag (its helper calls a superset of another helper's setters) is applied before the specific ones, so that a
+    # specific flag given together with it refines it instead of being overwritten
+    order = []
+    for c in walk(prog.body(main)):
+        if c.get("kind") == "CallExpr" and callee_name(c) in helpers:
+            order.append(callee_name(c))
+    setsof = {h: {sname for seq in cases.values() for (sname, _) in seq} for h, cases in helpers.items()}
+    for a in order:
+        for b in order:
+            if a != b and setsof[b] < setsof[a]:
+                chk.require(order.index(a) < order.index(b), "MAP", "MAP/order/%s>%s" % (a, b), loc_str(main),
+                            "%s (composite: %s) runs before %s (specific: %s), so the specific flag is not overwritten" %
+                            (a, sorted(setsof[a]), b, sorted(setsof[b])), "call order in main: %s" % order)
     nflag = 0
     for name, row in sorted(rows.items()):
         upd = promised(name)
